@@ -75,7 +75,7 @@ SPEC = {
                "TestHTTP2ScenarioGun/h2_good_after_tls_alert": 0.16, "TestHTTP2ScenarioGun/hs_internal_error": 0.08,
                "TestHTTP2ScenarioGun/post_header_substr": 0.052,
                "TestHTTPGun/connect_gun": 0.14, "TestHTTPGun/connect_ssl": 0.062, "TestHTTPGun/target_goes_away": 0.1,
-               "TestHTTPGun/target_never_up": 0.03, "TestHTTPGun/refused_seen": 0.088, "TestHTTPGun/refused_after_served": 0.05,
+               "TestHTTPGun/target_never_up": 0.022, "TestHTTPGun/refused_seen": 0.088, "TestHTTPGun/refused_after_served": 0.05,
                "TestHTTPGun/connect_gun_refused": 0.025, "TestHTTPGun/connect_ssl_refused": 0.0094,
                "TestScenarioGun/xpath_expr_nodeset_numeric": 0.09, "TestScenarioGun/xpath_expr_scalar": 0.012,
                "TestScenarioGun/xpath_expr_plain": 0.027, "TestScenarioGun/xpath_nodeset_numeric_on_non_numeric_page": 0.03,
@@ -95,7 +95,7 @@ SPEC = {
                "TestScenarioDataFlow/array_empty_indexed_in_template": 0.05, "TestScenarioDataFlow/array_shorter_than_index": 0.03,
                "TestScenarioDataFlow/not_an_array_indexed": 0.07, "TestScenarioDataFlow/dependent_step_failed_unsent": 0.25,
                "TestScenarioDataFlow/dependent_step_ran": 0.1,
-               "TestScenarioDataFlow/assert_body_fails_long_no_ws_in_head": 0.08, "TestScenarioDataFlow/assert_body_fails_long_with_ws": 0.07,
+               "TestScenarioDataFlow/assert_body_fails_long_no_ws_in_head": 0.08, "TestScenarioDataFlow/assert_body_fails_long_with_ws": 0.056,
                "TestScenarioDataFlow/assert_body_fails_short": 0.05, "TestScenarioDataFlow/assert_body_fails_long_no_ws_minjson": 0.006,
                "TestScenarioDataFlow/assert_body_fails_long_no_ws_base64": 0.006, "TestScenarioDataFlow/assert_body_fails_long_no_ws_hex": 0.006,
                "TestScenarioDataFlow/assert_body_fails_long_no_ws_filler": 0.006, "TestScenarioDataFlow/assert_body_fails_long_no_ws_binary": 0.004,
